@@ -1,6 +1,7 @@
 //! White-box helpers for `timeout_list.rs` (fabricating timer handles for the abstract scheduler) and the
 //! C08.2 / C08.3 obligations on the real timer list. Child module of `timeout_list.rs`.
 //@ file-inject: src/timeout_list.rs
+//@ file-mirror: src/scheduler.rs :: if let Some(mut co) = c.take() { // set the timeout result for the coroutine set_co_para(&mut co, io::Error::new(io::ErrorKind::TimedOut, "timeout")); // s.schedule_global(c); run_coroutine(co); }
 use super::*;
 use crate::coroutine_impl::vk_support as sup;
 use crate::coroutine_impl::CoroutineImpl;
